@@ -72,6 +72,7 @@ pub proof fn rl_sq_nonneg(w: real, d: real) requires w >= 0real ensures w * (d *
 pub proof fn rl_div_nonneg(s: real, d: real) requires s >= 0real, d > 0real ensures s / d >= 0real { assert(s / d >= 0real) by(nonlinear_arith) requires s >= 0real, d > 0real; }
 pub proof fn rl_sq_diff(x: real, m: real) ensures (x - m) * (x - m) == x * x - 2real * (m * x) + m * m { assert((x - m) * (x - m) == x * x - 2real * (m * x) + m * m) by(nonlinear_arith); }
 pub proof fn rl_zero(a: real) ensures 0real * a == 0real, a * 0real == 0real, a != 0real ==> 0real / a == 0real { assert(0real * a == 0real && a * 0real == 0real) by(nonlinear_arith); if a != 0real { assert(0real / a == 0real) by(nonlinear_arith) requires a != 0real; } }
+pub proof fn rl_sq_nonzero(a: real) requires a != 0real ensures a * a != 0real { assert(a * a != 0real) by(nonlinear_arith) requires a != 0real; }
 pub proof fn rl_congr(a: real, b: real, c: real) requires a == b ensures a * c == b * c, c * a == c * b {}
 
 
@@ -328,4 +329,19 @@ impl<A, D: Dimension> ArrayN<A, D> {
 pub open spec fn binom(n: nat, k: nat) -> nat decreases n { if k == 0 { 1 } else if n == 0 { 0 } else { binom((n - 1) as nat, (k - 1) as nat) + binom((n - 1) as nat, k) } }
 
 // R15: the exclusive end of `a..=b`
-pub fn verif_incl_end(b: i32) -> (r: i32) requires b < i32::MAX ensures r == b + 1 { b + 1 }
+pub trait VerifInclEnd: Sized {
+    spec fn can_succ(self) -> bool;
+    spec fn succ_spec(self) -> Self;
+    fn succ(self) -> (r: Self) requires self.can_succ() ensures r == self.succ_spec();
+}
+impl VerifInclEnd for i32 {
+    open spec fn can_succ(self) -> bool { self < i32::MAX }
+    open spec fn succ_spec(self) -> Self { (self + 1) as i32 }
+    fn succ(self) -> (r: Self) { self + 1 }
+}
+impl VerifInclEnd for u16 {
+    open spec fn can_succ(self) -> bool { self < u16::MAX }
+    open spec fn succ_spec(self) -> Self { (self + 1) as u16 }
+    fn succ(self) -> (r: Self) { self + 1 }
+}
+pub fn verif_incl_end<T: VerifInclEnd>(b: T) -> (r: T) requires b.can_succ() ensures r == b.succ_spec() { b.succ() }
